@@ -1,6 +1,7 @@
 import Votca.Model.C01
 import Votca.Model.C03
 import Votca.Model.C13
+import Votca.Gen.Stat
 /-! # C04 — executable model of `csg_stat` (csg/src/tools/csg_stat_imc.cc): coarse-grained positions (C01 model) →
 per-frame histograms of non-bonded pair distances (C02 minimum image, C03 exclusions, C13 nearest-centre binning), of
 bonded values and of three-body centre angles → running frame averages (`MergeWorker`), running average volume
@@ -193,13 +194,13 @@ def frameData (defs : List IDef) (cg : List CgDef) (ias : List Ia) (intra : Bool
 /-- `MergeWorker`: `avg ← ((n-1)·avg + h)/n` with `n` the new frame count -/
 def mergeStep (st : Nat × Rat) (h : Rat) : Nat × Rat :=
   let n := st.1 + 1
-  (n, (((n : Rat) - 1) * st.2 + h) / (n : Rat))
+  (n, Gen.Stat.mergeExpr (n : Rat) st.2 h)      -- the expression regenerated from Imc::MergeWorker
 
 def runMean (hs : List Rat) : Rat := (hs.foldl mergeStep (0, 0)).2
 
 /-- `Average<double>::Process`: `av ← av·n/(n+1) + v/(n+1)` -/
 def avgStep (st : Nat × Rat) (v : Rat) : Nat × Rat :=
-  (st.1 + 1, st.2 * (st.1 : Rat) / ((st.1 : Rat) + 1) + v / ((st.1 : Rat) + 1))
+  (st.1 + 1, Gen.Stat.avgExpr (st.1 : Rat) st.2 v)     -- the expression regenerated from Average::Process
 
 def avgVol (vs : List Rat) : Rat := (vs.foldl avgStep (0, 0)).2
 
@@ -218,27 +219,28 @@ def avgHist (defs : List IDef) (fs : List FrameData) (k : Nat) : List Rat :=
 
 /-- `BeginEvaluate`: pair normalisation -/
 def pairNorm (d : IDef) (cg : List CgDef) : Rat :=
-  let n1 := (beadsOfType cg d.t1).length
-  let n2 := (beadsOfType cg d.t2).length
-  if d.t1 == d.t2 then 2 / ((n1 * n2 : Nat) : Rat) else 1 / ((n1 * n2 : Nat) : Rat)
+  let n1 : Rat := ((beadsOfType cg d.t1).length : Rat)
+  let n2 : Rat := ((beadsOfType cg d.t2).length : Rat)
+  if d.t1 == d.t2 then Gen.Stat.normSame n1 n2 else Gen.Stat.normCross n1 n2
 
 /-- `x2³ - x1³` of the bin centred on `x` (× 4π/3 is the shell volume); `none` when the code writes 0 (`x1 < 0`) -/
 def shellCube (d : IDef) (x : Rat) : Option Rat :=
-  let x1 := x - d.step / 2
-  let x2 := x1 + d.step
+  let x1 := Gen.Stat.shellX1 x d.step
+  let x2 := Gen.Stat.shellX2 x1 d.step
   if x1 < 0 then none else some (x2 * x2 * x2 - x1 * x1 * x1)
 
 /-- non-bonded pair distribution times π: `V̄ · norm · h̄_i · 3 / (4 (x2³ - x1³))` -/
 def rdfTimesPi (d : IDef) (cg : List CgDef) (vbar : Rat) (avg : List Rat) : List Rat :=
   ((centres d).zip avg).map fun (x, h) =>
-    match shellCube d x with
-    | none => 0
-    | some c => vbar * pairNorm d cg * h * 3 / (4 * c)
+    let x1 := Gen.Stat.shellX1 x d.step
+    let x2 := Gen.Stat.shellX2 x1 d.step
+    -- the written value times π: the expression regenerated from WriteDist with `p = 1`
+    if x1 < 0 then 0 else Gen.Stat.rdfExpr vbar (pairNorm d cg) h x1 x2 1
 
 /-- bonded and three-body distributions: `norm_ · h̄ / (Σ|h̄| · step)` with `norm_ = 1`, unchanged when the sum is 0 -/
 def unitDist (d : IDef) (avg : List Rat) : List Rat :=
   let s := C13.sumAbs avg
-  if 0 < s then avg.map fun h => 1 * h / (s * d.step) else avg
+  if 0 < s then avg.map fun h => Gen.Stat.unitExpr 1 h s d.step else avg
 
 /-! ## IMC: correlations, `gmc`, `dS` -/
 
@@ -252,8 +254,12 @@ def groupIndex (defs : List IDef) (g : Nat) : List (Nat × Nat × Nat) :=
     (List.range ((defs[k]?.map nbins).getD 0)).map fun i => (pos, k, i)
 
 /-- `DoCorrelations`: entry of `corr_` for the entries the code updates -/
+def corrStep (st : Nat × Rat) (ab : Rat × Rat) : Nat × Rat :=
+  let n := st.1 + 1
+  (n, Gen.Stat.corrExpr (n : Rat) st.2 ab.1 ab.2)      -- the expression regenerated from Imc::DoCorrelations
+
 def corrEntry (fs : List FrameData) (a b : Nat × Nat × Nat) : Rat :=
-  runMean ((comp fs a.2.1 a.2.2).zip (comp fs b.2.1 b.2.2) |>.map fun (x, y) => x * y)
+  (((comp fs a.2.1 a.2.2).zip (comp fs b.2.1 b.2.2)).foldl corrStep (0, 0)).2
 
 /-- `WriteIMCData`: `-(<S_a S_b> - <S_a><S_b>)` computed for the blocks with member position `a ≤ b`, mirrored below -/
 def gmcEntry (fs : List FrameData) (a b : Nat × Nat × Nat) : Rat :=
@@ -268,9 +274,9 @@ def gmc (defs : List IDef) (g : Nat) (fs : List FrameData) : List (List Rat) :=
 (`h̄_i`, the rational factor of π of the de-normalised target) -/
 def dSParts (d : IDef) (cg : List CgDef) (vbar : Rat) (avg tgt : List Rat) : List (Rat × Rat) :=
   ((centres d).zip (avg.zip tgt)).map fun (x, h, t) =>
-    match shellCube d x with
-    | none => (h, 0)
-    | some c => (h, t * c * 4 / (3 * vbar * pairNorm d cg))
+    let x1 := Gen.Stat.shellX1 x d.step
+    let x2 := Gen.Stat.shellX2 x1 d.step
+    if x1 < 0 then (h, 0) else (h, Gen.Stat.targetExpr vbar (pairNorm d cg) t x1 x2 1)
 
 /-! ## the whole run: frame selection, merging in order, block output, `ClearAverages` -/
 
